@@ -924,6 +924,32 @@ example : let l := Msg.run (Msg.init 0 [{ maxRtx := 1 }]) (gevs.take 6)
     (abs l.q).map (·.deadline) = [6000] ∧ l.now = 6000 ∧
     (abs (Msg.prepareCore l).1.q).map (·.deadline) = [9000] ∧ (Msg.prepareCore l).2 = 3000 := by decide
 
+open Coap.Sim Coap.Sched in
+/-- **m_at_most_max_retransmissions** (full — every run over the C06 alphabet, punctual or late, NSTART-delayed messages
+included): the number of transmissions of (session, mid) never exceeds `MAX_RETRANSMIT + 1` per accepted `coap_send` of
+it — one first transmission and at most MAX_RETRANSMIT retransmissions; what is still queued keeps a budget of
+`MAX_RETRANSMIT − retransmit_cnt` each, what is still delayed `MAX_RETRANSMIT + 1` each.  With `m_schedule_all` (every
+transmission number `k` at its slot) and `m_pending_on_schedule` (numbers 0 … cnt all made): each slot is used, and
+used once. -/
+theorem m_at_most_max_retransmissions (now0 : Nat) (sess : List Msg.Sess) (evs : List Msg.Ev)
+    (hs : ∀ se ∈ sess, SessOk se) (hin : RunG (Msg.init now0 sess) evs) (s mid : Nat) :
+    let l := Msg.run (Msg.init now0 sess) evs
+    txC s mid l.out + budC s mid (parOf sess s).maxRtx l.q.nodes +
+        ((parOf sess s).maxRtx + 1) * midC mid (l.getS s).delayq ≤
+      ((parOf sess s).maxRtx + 1) * accC s mid (Msg.init now0 sess) evs := by
+  intro l
+  have h := run_W (P := fun _ _ _ => True) (gpar_of sess hs) s mid evs _
+    (finv_init False _ now0 sess hs) hin (fun _ _ _ _ => trivial)
+  rw [W_init s mid _ now0 sess hs, Nat.zero_add] at h
+  exact h
+
+open Coap.Sim Coap.Sched in
+/-- non-vacuity / reading of `m_at_most_max_retransmissions` on the gated witness (MAX_RETRANSMIT 1): message (0,1) was
+transmitted 2 = (1+1)·1 times; message (0,2) 2 times -/
+example : txC 0 1 (Msg.run (Msg.init 0 [{ maxRtx := 1 }]) gevs).out = 2 ∧
+    txC 0 2 (Msg.run (Msg.init 0 [{ maxRtx := 1 }]) gevs).out = 2 ∧
+    accC 0 1 (Msg.init 0 [{ maxRtx := 1 }]) gevs = 1 := by decide
+
 /-! ### where punctuality comes from: sleeping no longer than the returned wait -/
 open Coap.Sim Coap.Sched in
 /-- **sleep_returned_wait_ok** (full): after every run over the C06 alphabet, let `coap_io_prepare_io` run and return the
